@@ -176,15 +176,16 @@ example : ValidChunking 4 ([1, 2, 3, 4, 5].drop 2) [[3], [4, 5]] := by decide
 /-! ## completion reply -/
 
 /-- **completion_after_close.**  In the event order of an upload worker the `226` is the LAST event: every
-    `write`, the close of the data connection and the close of the file precede it (the file is closed last:
-    `async with file_out, stream` exits right to left), no other reply is queued before it, and the writes are
-    exactly the received blocks in order.  If the open fails the only events are the failed open and `451`. -/
+    `write`, the close of the file and the close of the data connection precede it (the stream is closed last:
+    `async with stream, file_out` exits right to left), no other reply is queued before it, and the writes are
+    exactly the received blocks in order.  If the open fails the only events are the failed open, the close of
+    the data connection and `451`. -/
 theorem completion_after_close (be : Backend) (old : Option Bytes) (v : UpVerb) (k : Nat) (reads : List Bytes) :
-    (∃ pre, storTrace be old v k reads = pre ++ [.streamClose, .fileClose, .reply 226]
+    (∃ pre, storTrace be old v k reads = pre ++ [.fileClose, .streamClose, .reply 226]
         ∧ (∀ e ∈ pre, e.isReply = false)
         ∧ pre.filterMap Ev.writeSize = (iterByBlock reads).map List.length
         ∧ (storResult be old v k reads).isSome)
-    ∨ (storTrace be old v k reads = [.openFailed (fileMode v.mode k), .reply 451] ∧ storResult be old v k reads = none) := by
+    ∨ (storTrace be old v k reads = [.openFailed (fileMode v.mode k), .streamClose, .reply 451] ∧ storResult be old v k reads = none) := by
   unfold storTrace storResult storHandle
   cases h : openFile be old (fileMode v.mode k) with
   | none => right; simp
@@ -202,12 +203,12 @@ theorem completion_after_close (be : Backend) (old : Option Bytes) (v : UpVerb) 
 
 example : storTrace .memory (some [1]) .stor 2 [[7, 8], [9], []] =
     [.open_ .rpb, .seek 2, .streamRead 2, .fileWrite 2, .streamRead 1, .fileWrite 1, .streamRead 0,
-      .streamClose, .fileClose, .reply 226] := by decide
+      .fileClose, .streamClose, .reply 226] := by decide
 
 /-- the same for the download worker: all reads of the file, all writes to the data connection, its close and
     the close of the file precede the `226` -/
 theorem retr_completion_after_close (file : Bytes) (k bs : Nat) :
-    ∃ pre, retrTrace (some file) k bs = pre ++ [.streamClose, .fileClose, .reply 226] ∧ ∀ e ∈ pre, e.isReply = false := by
+    ∃ pre, retrTrace (some file) k bs = pre ++ [.fileClose, .streamClose, .reply 226] ∧ ∀ e ∈ pre, e.isReply = false := by
   unfold retrTrace
   simp only [openFile, Option.map_some]
   refine ⟨_, by rw [List.append_assoc], ?_⟩
@@ -265,9 +266,11 @@ theorem generated_modes :
     ∧ storModeSel = ("connection.restart_offset", "'r+b'", "mode") ∧ retrModeSel = ("", "'rb'", "'rb'") := by decide
 
 open Generated.Transfer in
-/-- `async with file, stream` in both workers: the file is entered first and closed last -/
+/-- `async with stream, file` in both workers: the stream is entered first and closed last (so the data
+    connection is closed whatever the file's open/close does; the pinned tree had them the other way round,
+    finding F6 — repaired in /repo a864f95) -/
 theorem generated_with_order :
-    storWithItems = ["file", "stream"] ∧ retrWithItems = ["file", "stream"] := by decide
+    storWithItems = ["stream", "file"] ∧ retrWithItems = ["stream", "file"] := by decide
 
 open Generated.Transfer in
 /-- the 226 is the first statement after the `async with` and no reply is queued before or inside it -/
